@@ -32,8 +32,8 @@ N == 729
 Rounds == 81
 Bufs == {"lto", "hto", "lfrom", "hfrom"}
 
-VARIABLES pc, regs, lt, zf, stores, lset, hset, halted, err
-vars == <<pc, regs, lt, zf, stores, lset, hset, halted, err>>
+VARIABLES pc, regs, lt, zf, sf, stores, lset, hset, halted, err
+vars == <<pc, regs, lt, zf, sf, stores, lset, hset, halted, err>>
 
 \* values
 IntV(n) == [k |-> "int", n |-> n, buf |-> "", e |-> <<>>]
@@ -41,7 +41,7 @@ PtrV(b, off) == [k |-> "ptr", n |-> off, buf |-> b, e |-> <<>>]
 DataV(x) == [k |-> "data", n |-> 0, buf |-> "", e |-> x]
 Undef == [k |-> "undef", n |-> 0, buf |-> "", e |-> <<>>]
 
-Init == /\ pc = 1 /\ regs = [r \in Registers |-> Undef] /\ lt = FALSE /\ zf = FALSE
+Init == /\ pc = 1 /\ regs = [r \in Registers |-> Undef] /\ lt = FALSE /\ zf = FALSE /\ sf = FALSE
         /\ stores = [b \in Bufs |-> 0] /\ lset = {} /\ hset = {} /\ halted = FALSE /\ err = ""
 
 Ins == Program[pc]
@@ -50,7 +50,7 @@ AddrOf(i) ==
   LET base == regs[i.a]
       idx == IF i.b = "" THEN IntV(0) ELSE regs[i.b]
   IN IF base.k = "ptr" /\ idx.k = "int" THEN PtrV(base.buf, base.n + 8 * idx.n + i.imm) ELSE Undef
-AddrOK(a) == a.k = "ptr" /\ a.n % 8 = 0 /\ a.n >= 0 /\ a.n <= 8 * (N - 1)
+AddrOK(a) == a.k = "ptr" /\ a.buf \in Bufs /\ a.n % 8 = 0 /\ a.n >= 0 /\ a.n <= 8 * (N - 1)
 
 \* which buffers are the source of the current round: the registers loaded from the ARG instructions swap every round
 IsFromBuf(b) == IF Mode = "sym" THEN b \in {"lfrom", "hfrom"} ELSE TRUE
@@ -59,9 +59,9 @@ Bin(op, x, y) == <<op, x, y>>
 Step ==
   LET i == Ins IN
   CASE i.op = "ARG" -> /\ regs' = [regs EXCEPT ![i.c] = PtrV(i.a, 0)] /\ pc' = pc + 1
-                       /\ UNCHANGED <<lt, zf, stores, lset, hset, halted, err>>
+                       /\ UNCHANGED <<lt, zf, sf, stores, lset, hset, halted, err>>
     [] i.op = "IMM" -> /\ regs' = [regs EXCEPT ![i.c] = IntV(i.imm)] /\ pc' = pc + 1
-                       /\ UNCHANGED <<lt, zf, stores, lset, hset, halted, err>>
+                       /\ UNCHANGED <<lt, zf, sf, stores, lset, hset, halted, err>>
     [] i.op = "LOAD" ->
          LET a == AddrOf(i)
          IN /\ pc' = pc + 1
@@ -69,62 +69,69 @@ Step ==
                ELSE IF Mode = "sym" /\ a.buf \notin {"lfrom", "hfrom"} THEN err' = "round body loads from a destination buffer" /\ UNCHANGED regs
                ELSE /\ err' = err
                     /\ regs' = [regs EXCEPT ![i.c] = DataV(IF Mode = "sym" THEN <<(IF a.buf = "lfrom" THEN "L" ELSE "H"), a.n \div 8>> ELSE <<>>)]
-            /\ UNCHANGED <<lt, zf, stores, lset, hset, halted>>
+            /\ UNCHANGED <<lt, zf, sf, stores, lset, hset, halted>>
     [] i.op = "STORE" ->
          LET a == AddrOf(i) v == regs[i.c]
          IN /\ pc' = pc + 1
             /\ IF ~AddrOK(a) THEN err' = "store outside the buffers or misaligned" /\ UNCHANGED <<stores, lset, hset>>
-               ELSE IF v.k # "data" THEN err' = "non-data value stored" /\ UNCHANGED <<stores, lset, hset>>
+               ELSE IF v.k \notin {"data", "int"} THEN err' = "address or undefined value stored" /\ UNCHANGED <<stores, lset, hset>>
                ELSE /\ err' = err
                     /\ stores' = [stores EXCEPT ![a.buf] = @ + 1]
                     /\ IF Mode = "sym"
                        THEN /\ lset' = IF a.buf = "lto" THEN lset \cup {a.n \div 8} ELSE lset
                             /\ hset' = IF a.buf = "hto" THEN hset \cup {a.n \div 8} ELSE hset
                        ELSE UNCHANGED <<lset, hset>>
-            /\ UNCHANGED <<regs, lt, zf, halted>>
+            /\ UNCHANGED <<regs, lt, zf, sf, halted>>
     [] i.op = "MOV" -> /\ regs' = [regs EXCEPT ![i.c] = regs[i.a]] /\ pc' = pc + 1
-                       /\ UNCHANGED <<lt, zf, stores, lset, hset, halted, err>>
+                       /\ UNCHANGED <<lt, zf, sf, stores, lset, hset, halted, err>>
     [] i.op \in {"XOR", "AND", "OR"} ->
          /\ pc' = pc + 1
-         /\ IF regs[i.a].k = "data" /\ regs[i.c].k = "data"
+         /\ IF i.op = "XOR" /\ i.a = i.c THEN regs' = [regs EXCEPT ![i.c] = IntV(0)] /\ err' = err        \* zero idiom
+            ELSE IF regs[i.a].k = "data" /\ regs[i.c].k = "data"
             THEN /\ regs' = [regs EXCEPT ![i.c] = DataV(IF Mode = "sym" THEN Bin(i.op, regs[i.c].e, regs[i.a].e) ELSE <<>>)]
                  /\ err' = err
             ELSE err' = "bitwise operation on an address or counter" /\ UNCHANGED regs
-         /\ UNCHANGED <<lt, zf, stores, lset, hset, halted>>
+         /\ UNCHANGED <<lt, zf, sf, stores, lset, hset, halted>>
     [] i.op = "NOT" ->
          /\ pc' = pc + 1
          /\ IF regs[i.c].k = "data"
             THEN regs' = [regs EXCEPT ![i.c] = DataV(IF Mode = "sym" THEN <<"NOT", regs[i.c].e>> ELSE <<>>)] /\ err' = err
             ELSE err' = "NOT on an address or counter" /\ UNCHANGED regs
-         /\ UNCHANGED <<lt, zf, stores, lset, hset, halted>>
+         /\ UNCHANGED <<lt, zf, sf, stores, lset, hset, halted>>
     [] i.op = "ADDI" ->
          /\ pc' = pc + 1
          /\ IF regs[i.c].k = "int" THEN regs' = [regs EXCEPT ![i.c] = IntV(regs[i.c].n + i.imm)] /\ err' = err
             ELSE err' = "arithmetic on a non-counter" /\ UNCHANGED regs
-         /\ UNCHANGED <<lt, zf, stores, lset, hset, halted>>
+         /\ UNCHANGED <<lt, zf, sf, stores, lset, hset, halted>>
     [] i.op = "DEC" ->
          /\ pc' = pc + 1
-         /\ IF regs[i.c].k = "int" THEN regs' = [regs EXCEPT ![i.c] = IntV(regs[i.c].n - 1)] /\ zf' = (regs[i.c].n - 1 = 0) /\ err' = err
-            ELSE err' = "DEC on a non-counter" /\ UNCHANGED <<regs, zf>>
+         /\ IF regs[i.c].k = "int"
+            THEN /\ regs' = [regs EXCEPT ![i.c] = IntV(regs[i.c].n - 1)]
+                 /\ zf' = (regs[i.c].n - 1 = 0) /\ sf' = (regs[i.c].n - 1 < 0) /\ err' = err
+            ELSE err' = "DEC on a non-counter" /\ UNCHANGED <<regs, zf, sf>>
          /\ UNCHANGED <<lt, stores, lset, hset, halted>>
     [] i.op = "CMPI" ->
          /\ pc' = pc + 1
-         /\ IF regs[i.a].k = "int" THEN lt' = (regs[i.a].n < i.imm) /\ err' = err
-            ELSE err' = "comparison of a non-counter" /\ UNCHANGED lt
-         /\ UNCHANGED <<regs, zf, stores, lset, hset, halted>>
+         /\ IF regs[i.a].k = "int"
+            THEN lt' = (regs[i.a].n < i.imm) /\ zf' = (regs[i.a].n = i.imm) /\ sf' = (regs[i.a].n < i.imm) /\ err' = err
+            ELSE err' = "comparison of a non-counter" /\ UNCHANGED <<lt, zf, sf>>
+         /\ UNCHANGED <<regs, stores, lset, hset, halted>>
     [] i.op = "JL" -> /\ pc' = IF lt THEN LabelAt(i.a) ELSE pc + 1
-                      /\ UNCHANGED <<regs, lt, zf, stores, lset, hset, halted, err>>
+                      /\ UNCHANGED <<regs, lt, zf, sf, stores, lset, hset, halted, err>>
+    [] i.op \in {"JZ", "JGE", "JNS", "JS", "JMP"} ->
+         /\ pc' = IF (i.op = "JZ" /\ zf) \/ (i.op = "JGE" /\ ~lt) \/ (i.op = "JNS" /\ ~sf) \/ (i.op = "JS" /\ sf) \/ i.op = "JMP"
+                  THEN LabelAt(i.a) ELSE pc + 1
+         /\ UNCHANGED <<regs, lt, zf, sf, stores, lset, hset, halted, err>>
+    [] i.op = "LEA" -> /\ regs' = [regs EXCEPT ![i.c] = PtrV(i.a, 0)] /\ pc' = pc + 1      \* address of a static symbol: not one of the four buffers
+                       /\ UNCHANGED <<lt, zf, sf, stores, lset, hset, halted, err>>
     [] i.op = "JNZ" -> /\ pc' = IF ~zf THEN LabelAt(i.a) ELSE pc + 1
-                       /\ UNCHANGED <<regs, lt, zf, stores, lset, hset, halted, err>>
+                       /\ UNCHANGED <<regs, lt, zf, sf, stores, lset, hset, halted, err>>
     [] i.op = "XCHG" ->
-         IF Mode = "sym" THEN halted' = TRUE /\ UNCHANGED <<pc, regs, lt, zf, stores, lset, hset, err>>     \* one round body is enough
+         IF Mode = "sym" THEN halted' = TRUE /\ UNCHANGED <<pc, regs, lt, zf, sf, stores, lset, hset, err>>     \* one round body is enough
          ELSE /\ regs' = [regs EXCEPT ![i.a] = regs[i.c], ![i.c] = regs[i.a]] /\ pc' = pc + 1
-              /\ UNCHANGED <<lt, zf, stores, lset, hset, halted, err>>
-    [] i.op = "RET" -> halted' = TRUE /\ UNCHANGED <<pc, regs, lt, zf, stores, lset, hset, err>>
-    [] OTHER -> err' = "unknown instruction" /\ UNCHANGED <<pc, regs, lt, zf, stores, lset, hset, halted>>
-
-Next == ~halted /\ err = "" /\ Step
-Spec == Init /\ [][Next]_vars
+              /\ UNCHANGED <<lt, zf, sf, stores, lset, hset, halted, err>>
+    [] i.op = "RET" -> halted' = TRUE /\ UNCHANGED <<pc, regs, lt, zf, sf, stores, lset, hset, err>>
+    [] OTHER -> err' = "unknown instruction" /\ UNCHANGED <<pc, regs, lt, zf, sf, stores, lset, hset, halted>>
 
 -----------------------------------------------------------------------------
 \* invariants
@@ -179,4 +186,21 @@ StoreIsRoundFunction ==
                     = (IF a.buf = "lto" THEN WantL(aL, aH, bL, bH) ELSE WantH(aL, aH, bL, bH))
           /\ (a.buf = "lto" => (a.n \div 8) \notin lset) /\ (a.buf = "hto" => (a.n \div 8) \notin hset)     \* written once
 RoundComplete == (Mode = "sym" /\ halted) => lset = 0..(N - 1) /\ hset = 0..(N - 1)
+
+\* ---- the checks as one predicate (see Guarded / Report above)
+ChecksHold == RolesAtRoundHead /\ StoreIsRoundFunction
+FailedCheck == IF ~RolesAtRoundHead THEN "RolesAtRoundHead: pointer roles / store counts at the head of a round"
+               ELSE "StoreIsRoundFunction: a store is not the round function of its index (or writes an index twice)"
+FinalChecksHold == AtReturn /\ RoundComplete
+FailedFinal == IF ~AtReturn THEN "AtReturn: round counter / store counts at RET" ELSE "RoundComplete: an index of the destination was never written"
+\* The checks below are evaluated by the machine itself before every step and recorded in `err`; the run then stops
+\* and Report prints the verdict.  (They are not TLC INVARIANTs on purpose: a violated invariant makes TLC reconstruct
+\* and print the whole behaviour, 650 000 states for the address run.)
+Guarded == IF ~ChecksHold THEN /\ err' = FailedCheck /\ UNCHANGED <<pc, regs, lt, zf, sf, stores, lset, hset, halted>>
+           ELSE Step
+Next == ~halted /\ err = "" /\ Guarded
+Spec == Init /\ [][Next]_vars
+\* printed once, when the run has stopped
+Report == (halted \/ err # "") => PrintT(<<"VERIF-ASM", IF err = "" /\ FinalChecksHold THEN "ok" ELSE (IF err # "" THEN err ELSE FailedFinal), pc>>)
+
 =============================================================================
